@@ -46,6 +46,7 @@ type frame struct {
 	nameEnv  map[string]Val // params by contract names (for invariants)
 	defers   []*ssa.Defer
 	catch    *catchCtx
+	walkCount int // ordinal of the next collections Walk call (source order of execution)
 	freeVars []Val
 	curCallArgs []ssa.Value
 	curEnv   map[ssa.Value]Val
